@@ -126,7 +126,7 @@ def check_decl(dc, st, tier, only=None):
         s = only.get('start', 0)
         check_one(dc, st, only['raw'], ea.ref_parse(dc.P, only['raw'], s), s)
         return
-    budget = 800 if tier == 'quick' else 4000
+    budget = ea.budget_for(dc, tier)
     offsets = [0]
     if 'abs' not in dc.feats:
         offsets = [0, 1] if tier == 'quick' else [0, 1, 2]
